@@ -144,5 +144,12 @@ AllOk(cs) == \A x \in 1..Len(cs) : cs[x].ok \/ cs[x].r \in KnownReasons \/ (Prin
 PropWrap == pc = "done" => AllOk(Judge_wrap(Ev))
 \* once a call has begun it returns (checked under weak fairness of the step actions: the algorithms terminate)
 Terminates == (pc # "type") ~> (pc = "done")
-Emit == pc = "done" => PrintT(<<"REPLAY", ToJson([k |-> "wrap", text |-> text, o |-> o])>>)
+\* Besides the plain call, a Unicode-separator behaviour is also replayed with a *custom* separator that cuts the
+\* paragraphs exactly where the machine did for the opportunity sets TLC chose, so that the real split / break /
+\* arrange / re-assemble pipeline is run on the very word lists of this behaviour.
+Emit == pc = "done" =>
+  /\ PrintT(<<"REPLAY", ToJson([k |-> "wrap", text |-> text, o |-> o])>>)
+  /\ (o.sep = "uax" /\ o.alg = "ff") =>
+        PrintT(<<"REPLAY", ToJson([k |-> "wrap", text |-> text, o |-> [o EXCEPT !.sep = "custom"],
+                                   cuts |-> [x \in 1..Len(oppsv) |-> SetToSortSeq(UaxCutsOp(SubSeq(text, prs[x][1], prs[x][2]), oppsv[x]), <)]])>>)
 =============================================================================
